@@ -1,6 +1,6 @@
 SPECIFICATION Spec
 CONSTANTS
-  AllowConnect = FALSE
+  AllowConnect = TRUE
   MaxCalls = 4
   Fallback = "own"
 INVARIANTS
